@@ -136,11 +136,13 @@ def handle (op : String) (j : Json) : Option (Except String Json) :=
       let base ← (← getArr j "base").mapM sentry
       let lib ← (← getArr j "lib").mapM sentry
       let am := getBoolD j "am" false
-      match mergeSection fc base lib am with
+      let ph := getBoolD j "placeholder" false
+      let key : SEntry → Str := if getBoolD j "units" false then unitKey fc else nameKeyExact
+      match mergeSection key ph base lib am with
       | .ok m =>
         -- conclusion of `section_conservative`, evaluated
-        let kept := base.all fun b => sectionGet fc m b.name == sectionGet fc base b.name
-        let present := (offered lib am).all fun e => m.contains e
+        let kept := base.all fun b => sectionGet key m (key b) == sectionGet key base (key b)
+        let present := (offered lib am).all fun e => m.contains e || (ph && isPlaceholder e)
         pure (jobj [("ok", jarr (m.map sentryJson)), ("base_kept", jbool kept), ("lib_present", jbool present),
                     ("prefix_kept", jbool (m.take base.length == base))])
       | .error d => pure (jobj [("err", Json.str "SCHEMA_DUPLICATE_NAMES"), ("dups", jarr (d.map jstr))])
